@@ -1000,6 +1000,11 @@ func unparsePipelinedCall(call b6.CallExpression, top bool) (string, bool) {
 		return "", false
 	}
 	rhs, ok := unparseCall(b6.CallExpression{Function: call.Function, Args: call.Args[1:]}, true)
+	if f, isCall := call.Function.AnyExpression.(b6.CallExpression); isCall && f.Pipelined && len(call.Args) == 1 {
+		// A pipeline on the right hand side needs to be grouped, since
+		// pipelines otherwise associate to the left.
+		rhs, ok = unparseExpression(call.Function, false)
+	}
 	if !ok {
 		return "", false
 	}
